@@ -431,8 +431,12 @@ func c06Eval(c *harness.Ctx, cs c06Case) {
 func c06Check(c *harness.Ctx) {
 	th := c.Thorough()
 	idx := 0
-	for _, l := range c06Holds {
-		for _, r := range c06Holds {
+	holds := c06Holds
+	if th {
+		holds = []int{0, 3, 4, 5, 6, 9, 10, 29, 30, 60, 90, 180, 255, 256, 3600, 65534, 65535}
+	}
+	for _, l := range holds {
+		for _, r := range holds {
 			for ti, tr := range c06Traffic {
 				for wi, wr := range c06Writes {
 					for _, legacy := range []bool{false, true} {
